@@ -428,7 +428,7 @@ class Diagram(rigid.Diagram):
         if contractor is None:
             return Functor(ob=lambda x: x, ar=lambda f: f.array)(self)
         array = contractor(*self.to_tn()).tensor
-        return Tensor(self.dom, self.cod, array)
+        return Tensor(Dim.upgrade(self.dom), Dim.upgrade(self.cod), array)
 
     def to_tn(self):
         """
@@ -454,7 +454,7 @@ class Diagram(rigid.Diagram):
         """
         import tensornetwork as tn
         nodes = [tn.Node(Tensor.np.eye(dim), 'input_{}'.format(i))
-                 for i, dim in enumerate(self.dom)]
+                 for i, dim in enumerate(Dim.upgrade(self.dom))]
         inputs, scan = [n[0] for n in nodes], [n[1] for n in nodes]
         for box, offset in zip(self.boxes, self.offsets):
             if isinstance(box, Swap):
